@@ -122,7 +122,25 @@ func (g *Gen) weighted() string {
 }
 
 func (g *Gen) newName(d *gobj) string {
-	if g.p.Steer["longnames"] && g.rng.Intn(8) != 0 {
+	if g.p.Steer["longnames"] && d != nil && len(d.kids) > 0 && g.rng.Intn(6) == 0 {
+		// one of the names added to this directory last (they sit at its end): must be refused as existing, also
+		// right after the name cache has been rebuilt
+		var cand []string // sorted by the counter the names end in (map order must not reach the generator)
+		for n := range d.kids {
+			if len(n) > 5 {
+				cand = append(cand, n[len(n)-5:]+n)
+			}
+		}
+		sort.Strings(cand)
+		if len(cand) > 0 {
+			k := len(cand) - 1 - g.rng.Intn(10)
+			if k < 0 {
+				k = 0
+			}
+			return cand[k][5:]
+		}
+	}
+	if g.p.Steer["longnames"] && g.rng.Intn(24) != 0 {
 		// distinct names a little below the announced limit
 		n := int(g.nmax) - g.rng.Intn(6)
 		if n < 6 {
@@ -991,6 +1009,20 @@ func (g *Gen) hostileName() string {
 }
 
 func (g *Gen) hostile() Op {
+	if g.rng.Intn(30) == 0 {
+		// an existing entry renamed to a name around / beyond the announced limit, then everything that decodes the
+		// directory: a listing, a restart (name cache rebuilt from disk), a lookup, another entry added
+		if d := g.pick(2); d != nil {
+			if n, _ := g.existingName(d); n != "" {
+				long := strings.Repeat("r", []int{112, 113, 128, 255, 300}[g.rng.Intn(5)])
+				g.enq(nil, Op{Proc: "readdirplus", H: d.sym, Dircount: 1 << 20, Maxcount: 1 << 20},
+					Op{Proc: "restart"},
+					Op{Proc: "lookup", H: d.sym, Name: "h1"},
+					Op{Proc: "readdir", H: d.sym, Count: 1 << 20})
+				return Op{Proc: "rename", H: d.sym, Name: n, H2: d.sym, Name2: long}
+			}
+		}
+	}
 	u := func() uint64 {
 		switch g.rng.Intn(4) {
 		case 0:
